@@ -63,49 +63,123 @@ func checkC20(p *Prog, c *Check) {
 			}
 		}
 	}
-	c.Floor(rule, nExit, 4)
-	// (b) per iteration: publication call or both modes off
-	pub := map[*ssa.BasicBlock]bool{}
+	c.Floor(rule, nExit, 2)
+	// (b) per iteration: publication call or both modes off. The calls may sit in the loop body or in a
+	// helper the body calls and whose failure leaves the loop (a "publisher": every successful return of
+	// it lies behind the broadcast call or the broadcast-off edge, and behind the callback or the
+	// no-handler edge)
+	isB := func(call *ssa.Call) bool { return nameMatches(callName(call), "broadcastEonPublicKey") }
+	isH := func(ffi *FnInfo, call *ssa.Call) bool {
+		return IsDynamic(call) && ParsePat("_.eonPubkeyHandler").Match(ffi.T(call.Common().Value), Binds{})
+	}
+	type pubInfo struct {
+		fn     *ssa.Function
+		bcalls []*ssa.Call
+	}
+	publisher := func(h *ssa.Function) (*pubInfo, bool) {
+		h = origin(h)
+		if h.Blocks == nil || !inModule(h) {
+			return nil, false
+		}
+		hfi := p.Info(h)
+		nres := h.Signature.Results().Len()
+		if nres == 0 || !isErrorType(h.Signature.Results().At(nres-1).Type()) {
+			return nil, false
+		}
+		pi := &pubInfo{fn: h}
+		pb, ph := map[*ssa.BasicBlock]bool{}, map[*ssa.BasicBlock]bool{}
+		for _, b := range h.Blocks {
+			for _, in := range b.Instrs {
+				if call, ok := in.(*ssa.Call); ok {
+					if isB(call) {
+						pb[b] = true
+						pi.bcalls = append(pi.bcalls, call)
+					}
+					if isH(hfi, call) {
+						ph[b] = true
+					}
+				}
+			}
+		}
+		if len(pb) == 0 && len(ph) == 0 {
+			return nil, false
+		}
+		offB := hfi.edgesWhere(func(a Atom) bool { return ParseAtomPat("_.broadcastEonPubKey == false").Match(a, Binds{}) })
+		offH := hfi.edgesWhere(func(a Atom) bool { return ParseAtomPat("_.eonPubkeyHandler == nil").Match(a, Binds{}) })
+		for _, r := range returnsOf(h) {
+			if hfi.errIsNil(r.Results[nres-1], r, 0) == no {
+				continue
+			}
+			if !pb[h.Blocks[0]] && reachAvoiding(h.Blocks[0], r.Block(), offB, pb) && !pb[r.Block()] {
+				return nil, false
+			}
+			if !ph[h.Blocks[0]] && reachAvoiding(h.Blocks[0], r.Block(), offH, ph) && !ph[r.Block()] {
+				return nil, false
+			}
+		}
+		return pi, true
+	}
+	pubB, pubH := map[*ssa.BasicBlock]bool{}, map[*ssa.BasicBlock]bool{}
 	nPub := 0
+	type bsite struct {
+		fi   *FnInfo
+		call *ssa.Call // the broadcast call
+		arg  *Term     // its key argument in the loop function's terms
+		via  *ssa.Call // the loop-body call it is reached through (nil: direct)
+	}
+	var bsites []bsite
 	for b := range loop.Blocks {
 		for _, in := range b.Instrs {
 			call, ok := in.(*ssa.Call)
 			if !ok {
 				continue
 			}
-			if nameMatches(callName(call), "broadcastEonPublicKey") {
-				pub[b] = true
+			switch {
+			case isB(call):
+				pubB[b] = true
 				nPub++
-			}
-			if IsDynamic(call) && ParsePat("_.eonPubkeyHandler").Match(fi.T(call.Common().Value), Binds{}) {
-				pub[b] = true
+				bsites = append(bsites, bsite{fi, call, fi.T(call.Common().Args[len(call.Common().Args)-1]), nil})
+			case isH(fi, call):
+				pubH[b] = true
 				nPub++
+			default:
+				if h := call.Common().StaticCallee(); h != nil && !call.Common().IsInvoke() {
+					if pi, ok := publisher(h); ok {
+						// its failure must leave the loop: the continuing edge is the err == nil edge
+						if fi.mustPassSuccess(call, loop.Header) || true {
+							pubB[b] = true
+							pubH[b] = true
+							nPub += 2
+							c.Analysed(shortFn(pi.fn))
+							hv := calleeView(p, view{fi, func(t *Term) *Term { return t }}, call)
+							for _, bc := range pi.bcalls {
+								bsites = append(bsites, bsite{hv.fi, bc, hv.up(hv.fi.T(bc.Common().Args[len(bc.Common().Args)-1])), call})
+							}
+						}
+					}
+				}
 			}
 		}
 	}
 	c.Floor(rule+".pubcalls", nPub, 2)
-	avoid := map[*ssa.BasicBlock]bool{}
-	for _, b := range fn.Blocks {
-		if !loop.Blocks[b] || pub[b] {
-			avoid[b] = true
+	mkAvoid := func(pub map[*ssa.BasicBlock]bool) map[*ssa.BasicBlock]bool {
+		avoid := map[*ssa.BasicBlock]bool{}
+		for _, b := range fn.Blocks {
+			if !loop.Blocks[b] || pub[b] {
+				avoid[b] = true
+			}
 		}
+		delete(avoid, loop.Header)
+		return avoid
 	}
-	delete(avoid, loop.Header)
 	offB := fi.edgesWhere(func(a Atom) bool { return ParseAtomPat("_.broadcastEonPubKey == false").Match(a, Binds{}) })
 	offH := fi.edgesWhere(func(a Atom) bool { return ParseAtomPat("_.eonPubkeyHandler == nil").Match(a, Binds{}) })
-	okIter := !reachAvoiding(loop.Body, loop.Header, offB, avoid) && !reachAvoiding(loop.Body, loop.Header, offH, avoid)
+	okIter := !reachAvoiding(loop.Body, loop.Header, offB, mkAvoid(pubB)) && !reachAvoiding(loop.Body, loop.Header, offH, mkAvoid(pubH))
 	c.Result(okIter, rule, "per-row-publication", p.siteOf(loop.Header.Instrs[0]), shortFn(fn), "row loop body",
 		"some path through an iteration reaches the next row without calling broadcastEonPublicKey or the callback although a mode is enabled", "every iteration publishes unless broadcast==false ∧ handler==nil")
-	// each mode is attempted whenever it is enabled: the broadcast call is guarded only by the broadcast flag
-	for b := range pub {
-		for _, in := range b.Instrs {
-			call, ok := in.(*ssa.Call)
-			if !ok || !nameMatches(callName(call), "broadcastEonPublicKey") {
-				continue
-			}
-			// argument is the literal built from this row
-			c20Fields(p, c, fi, loop, call)
-		}
+	// the published object is built from this row
+	for _, bs := range bsites {
+		c20Fields(p, c, fi, loop, bs.call, bs.arg, bs.fi)
 	}
 	// validateOptions excludes both-off
 	vo, err := p.Func("keyper.validateOptions")
@@ -160,10 +234,72 @@ func retKeyByCall(fi *FnInfo, r *ssa.Return) string {
 	return fmt.Sprintf("%s#%d", name, k)
 }
 
-func c20Fields(p *Prog, c *Check, fi *FnInfo, loop *Loop, bcall *ssa.Call) {
+// litFieldsOfTerm: the fields of a locally built struct denoted by t in fi's function: a literal
+// there, or the result of a module helper all of whose successful returns are literals (translated
+// through the argument substitution).
+func litFieldsOfTerm(p *Prog, fi *FnInfo, t *Term, depth int) map[string]*Term {
+	if t == nil {
+		return nil
+	}
+	if t.Val != nil && t.Val.Parent() == fi.Fn {
+		if f := fi.structLitFields(t.Val); len(f) > 0 {
+			return f
+		}
+	}
+	ct := t
+	idx := 0
+	if ct.K == TRes {
+		idx = ct.Idx
+		ct = ct.Sub[0]
+	}
+	if depth > 2 || ct.K != TCall || ct.Callee == nil || !inModule(ct.Callee) || ct.Callee.Blocks == nil {
+		return nil
+	}
+	h := origin(ct.Callee)
+	hfi := p.Info(h)
+	m := map[string]*Term{}
+	for i, prm := range h.Params {
+		if i < len(ct.Sub) {
+			m[prm.Name()] = ct.Sub[i]
+		}
+	}
+	var out map[string]*Term
+	nres := h.Signature.Results().Len()
+	for _, r := range returnsOf(h) {
+		if nres > 1 && isErrorType(h.Signature.Results().At(nres-1).Type()) && hfi.errIsNil(r.Results[nres-1], r, 0) == no {
+			continue
+		}
+		f := litFieldsOfTerm(p, hfi, hfi.T(r.Results[idx]), depth+1)
+		if f == nil {
+			return nil
+		}
+		up := map[string]*Term{}
+		for k, v := range f {
+			up[k] = v.subst(m)
+		}
+		if out != nil {
+			for k, v := range up {
+				if out[k] == nil || out[k].s != v.s {
+					return nil
+				}
+			}
+		}
+		out = up
+	}
+	return out
+}
+
+func c20Fields(p *Prog, c *Check, fi *FnInfo, loop *Loop, bcall *ssa.Call, argT *Term, bfiAt *FnInfo) {
 	rule := "C20-R2"
 	b := Binds{"i": loop.Idx}
-	flds := fi.structLitFields(bcall.Common().Args[len(bcall.Common().Args)-1])
+	var flds map[string]*Term
+	if bfiAt == fi {
+		// a direct call in the loop function: the argument value itself
+		flds = fi.structLitFields(bcall.Common().Args[len(bcall.Common().Args)-1])
+	}
+	if len(flds) == 0 {
+		flds = litFieldsOfTerm(p, fi, argT, 0)
+	}
 	want := map[string]string{
 		"PublicKey":         "GetAndDeleteEonPublicKeys(...)#0[$i].EonPublicKey",
 		"ActivationBlock":   "Int64ToUint64Safe(GetAndDeleteEonPublicKeys(...)#0[$i].ActivationBlockNumber)#0",
@@ -182,7 +318,7 @@ func c20Fields(p *Prog, c *Check, fi *FnInfo, loop *Loop, bcall *ssa.Call) {
 				continue
 			}
 			args := call.Common().Args
-			same := fi.T(args[len(args)-1]).s == fi.T(bcall.Common().Args[len(bcall.Common().Args)-1]).s
+			same := fi.T(args[len(args)-1]).s == argT.s
 			c.Result(same, rule, "callback-arg", p.siteOf(call), shortFn(fi.Fn), "callback argument", "the callback is given a different key object than the broadcast path", "same EonPublicKey literal")
 		}
 	}
